@@ -111,7 +111,7 @@ class ArraySpec:
     """The property's own model: a set of fixed-length typed arrays.  Elements are kept as the bytes the
     tag's type encodes them to (what any read can show)."""
 
-    def __init__(self, case, addrs):
+    def __init__(self, case, addrs, class_level=False):
         self.arr = {}
         self.ty = {}
         for t in case["tags"]:
@@ -121,7 +121,7 @@ class ArraySpec:
                 self.ty[a] = t["type"]
         self.sym = {t["name"].lower(): tuple(addrs[t["name"]]) for t in case["tags"]}
         # the static class-level attributes (instance 0) of every class in use
-        for c in [2] + [tuple(addrs[t["name"]])[0] for t in case["tags"]]:
+        for c in ([2] + [tuple(addrs[t["name"]])[0] for t in case["tags"]]) if class_level else []:
             for a in CLASS_ATTRS:
                 if (c, 0, a) not in self.arr:
                     self.arr[(c, 0, a)] = [b"\x00\x00"]
@@ -281,7 +281,8 @@ def oracle_history(case, out, check_errors=False, check_bundle=False):
         return why
     if not case["reqs"]:
         return None
-    spec = ArraySpec(case, case["addrs"])
+    # (runs that dump the static class-level attributes also address them)
+    spec = ArraySpec(case, case["addrs"], class_level=("2.0.1=" in out))
     steps = out.split(";")
     if len(steps) != len(case["reqs"]):
         return f"{len(steps)} answers for {len(case['reqs'])} requests"
